@@ -15,6 +15,7 @@ THEOREM_NOTE = 'Datacake.Rpc.crc32 / mkFrame / checkFrame (Model/Rpc.lean); theo
 JOBS = 8
 SEARCH_ROUNDS = 1
 TYPES = [('M2', 4), ('M1', 8), ('Big', 64), ('Status', 12), ('Payload', 56)]
+ALIGN = {'M2': 4, 'M1': 8, 'Big': 8, 'Status': 4, 'Payload': 8}      # align_of the archived roots (compared with the code by `alignof`)
 
 
 def hx(b):
@@ -98,6 +99,13 @@ def generate(rng, tier):
             for t in range(len(f)):
                 lines.append('check %s %d %s' % (ty, fixed, hx(f[:t])))
             lines.append('end'); cases.append(lines)
+    # frames with a MATCHING checksum and any number of stray bytes in front of the root (D35): the root is then at a position that
+    # is not aligned for it unless that number is a multiple of the type's alignment; plus the alignment table itself
+    lines = ['case %d rpc' % idx] + ['alignof %s' % ty for ty, _ in TYPES]; idx += 1
+    for ty, fixed in TYPES:
+        for extra in (range(0, 34) if tier != 'quick' else [0, 1, 2, 3, 4, 5, 7, 8, 9, 12, 16, 17, 24]):
+            lines.append('check %s %d %s' % (ty, fixed, hx(frame_of(rand_bytes(rng, fixed + extra)))))
+    lines.append('end'); cases.append(lines)
     # every length 0..64 with every value of the last byte (crc only)
     lens = range(0, 65) if tier != 'quick' else range(0, 65, 7)
     for ln in lens:
@@ -161,10 +169,12 @@ def oracle(case, impl):
         if t[0] == 'check':
             fixed = int(t[2]); f = bytes.fromhex(t[3]) if t[3] != '-' else b''
             valid = len(f) >= 4 and zlib.crc32(f[:-4]).to_bytes(4, 'little') == f[-4:]
-            should = valid and len(f) - 4 >= fixed
+            should = valid and len(f) - 4 >= fixed and (len(f) - 4 - fixed) % ALIGN[t[1]] == 0
             if out not in ('ok', 'invalid'): bad.append('%s: %s' % (line[:80], out))
             elif (out == 'ok') != should:
                 bad.append('%s: %s, but the frame is %s' % (line[:80], out, 'valid' if should else ('short' if valid else 'damaged')))
+        elif t[0] == 'alignof':
+            if out != 'align %d' % ALIGN[t[1]]: bad.append('%s: %s, the table of the oracle says %d' % (line, out, ALIGN[t[1]]))
         elif t[0] == 'crc':
             b = bytes.fromhex(t[1]) if t[1] != '-' else b''
             if out != str(zlib.crc32(b)): bad.append('%s: crc %s != %d' % (line[:60], out, zlib.crc32(b)))
